@@ -19,7 +19,7 @@ func prefixStore(region string) string {
 func (p *Prog) regionWriters(region string) (names []string, fns map[string]*ssa.Function) {
 	fns = map[string]*ssa.Function{}
 	for _, fn := range p.Funcs {
-		for _, e := range p.effects(fn).direct {
+		for _, e := range p.own(fn) {
 			if (e.Kind == "W" || e.Kind == "D") && e.Region == region {
 				n := e.Kind + ":" + funcName(fn)
 				if fns[n] == nil {
@@ -111,21 +111,22 @@ func foundGetterContract(p *Prog, r *Report, getter, region, key, zero string) {
 		getter+" reads exactly "+region+" under "+key, fmt.Sprintf("%s reads %v, expected only %s under %s", getter, reads, region, key))
 	get := "(prefix.Store).Get(" + prefixStore(region) + "," + key + ")"
 	n := 0
-	for _, b := range fn.Blocks {
-		for _, in := range b.Instrs {
-			ret, ok := in.(*ssa.Return)
-			if !ok || len(ret.Results) != 2 {
-				continue
-			}
-			n++
-			v, f := c.term(ret.Results[0], ret), c.term(ret.Results[1], ret)
-			okPair := (v == zero && f == "false") || (v == "decode("+get+")" && f == "true")
-			r.check(okPair, "getter-contract", "getter-contract/"+getter+"/return/"+f, p.instrPos(ret),
-				"returns ("+strings.ReplaceAll(v, get, "GET")+", "+f+")", "unexpected return pair ("+v+", "+f+") in "+getter)
+	var withTrue []vret
+	for _, vr := range c.virtualReturns() {
+		if len(vr.vals) != 2 {
+			continue
+		}
+		n++
+		v, f := vr.vals[0], vr.vals[1]
+		okPair := (v == zero && f == "false") || (v == "decode("+get+")" && f == "true")
+		r.check(okPair, "getter-contract", "getter-contract/"+getter+"/return/"+f, p.instrPos(vr.at),
+			"returns ("+strings.ReplaceAll(v, get, "GET")+", "+f+")", "unexpected return pair ("+v+", "+f+") in "+getter)
+		if f != "false" {
+			withTrue = append(withTrue, vr)
 		}
 	}
 	r.check(n == 2, "getter-contract", "getter-contract/"+getter+"/returns", c.pos(), "two returns: not-found and found", fmt.Sprintf("%d returns", n))
-	c.requireCut("getter-contract", "found-implies-present", []Atom{A("!(" + get + " == nil)")}, returnsWithTrue(c))
+	c.requireCutRets("getter-contract", "found-implies-present", []Atom{A("!(" + get + " == nil)")}, withTrue)
 }
 
 func flagGetterContract(p *Prog, r *Report, flag string) {
@@ -177,7 +178,7 @@ func runC11(p *Prog, r *Report, tier string) {
 			continue
 		}
 		var ws []Effect
-		for _, e := range p.effects(fn).direct {
+		for _, e := range p.own(fn) {
 			if e.Kind == "W" || e.Kind == "D" {
 				ws = append(ws, e)
 			}
@@ -260,7 +261,7 @@ func runC12(p *Prog, r *Report, tier string) {
 	// MessageSent has exactly one primitive emission site
 	var sentSites []string
 	for _, fn := range p.Funcs {
-		for _, e := range p.effects(fn).direct {
+		for _, e := range p.own(fn) {
 			if e.Kind == "EVENT" && e.Region == "*types.MessageSent" {
 				sentSites = append(sentSites, funcName(fn))
 			}
@@ -402,7 +403,7 @@ func runC12(p *Prog, r *Report, tier string) {
 		if c == nil {
 			continue
 		}
-		for _, e := range p.effects(fn).direct {
+		for _, e := range p.own(fn) {
 			if e.Kind == "W" {
 				c.teq("T-eq", "key", e.Key.String(), fmt.Sprintf("[]byte(%q)", flag+"/value/"), p.instrPos(e.In))
 				c.teq("T-eq", "value", e.Val.String(), "k.cdc.MustMarshal(&p2)", p.instrPos(e.In))
@@ -541,7 +542,7 @@ func kAgree(p *Prog, r *Report, coll, region string, want map[string]string) {
 		}
 		var got []string
 		pos := p.pos(fn.Pos())
-		for _, e := range p.effects(fn).direct {
+		for _, e := range p.own(fn) {
 			if e.Region == region && (e.Kind == "R" || e.Kind == "W" || e.Kind == "D") {
 				got = append(got, e.Kind+" "+e.Key.String())
 				pos = p.instrPos(e.In)
